@@ -32,7 +32,7 @@ Begin == /\ Is("Begin")
          /\ pc' = [r \in Reqs |-> "idle"] /\ idx' = [r \in Reqs |-> 1]
          /\ loc' = [r \in Reqs |-> <<>>] /\ res' = [r \in Reqs |-> <<>>] /\ nxt' = [r \in Reqs |-> <<>>]
          /\ sigs' = [r \in Reqs |-> {}] /\ released' = {} /\ order' = <<>> /\ faulted' = {}
-         /\ crashes' = 0 /\ faults' = 0
+         /\ crashes' = 0 /\ faults' = 0 /\ closed' = FALSE
 
 EntOf(e) == [k |-> e.k, s |-> e.s, t |-> e.t, slot |-> e.slot, root |-> e.root]
 \* Invoke carries the request's content (Signer.Choose + Signer.Invoke in one recorded step)
@@ -46,7 +46,7 @@ TInvoke == /\ Is("Invoke")
                  /\ loc' = [loc EXCEPT ![r] = [i \in 1 .. n |-> NoRec]]
                  /\ res' = [res EXCEPT ![r] = [i \in 1 .. n |-> "UNKNOWN"]]
                  /\ nxt' = [nxt EXCEPT ![r] = [i \in 1 .. n |-> NoRec]]
-           /\ UNCHANGED <<disk, mapLock, holder, idx, sigs, released, order, faulted, crashes, faults>>
+           /\ UNCHANGED <<disk, mapLock, holder, idx, sigs, released, order, faulted, crashes, faults, closed>>
 
 TRulerEnter == Is("RulerEnter") /\ Validate(Ev.r)
 TPreLock == Is("PreLock") /\ PreLock(Ev.r)
